@@ -49,6 +49,8 @@ fn build(p: &Program, ctx: &mut Ctx) {
                     for (what, t) in [("out of range", BranchTarget::Statement(StatementIdx(n + 7))), ("one past the last statement", BranchTarget::Statement(StatementIdx(n))), ("usize::MAX", BranchTarget::Statement(StatementIdx(usize::MAX))), ("self", BranchTarget::Statement(StatementIdx(i))), ("0", BranchTarget::Statement(StatementIdx(0))), ("fallthrough", BranchTarget::Fallthrough)] {
                         ctx.emit(p, || format!("statement {i}: branch {b} target := {what}"), |q: &mut Program| { if let Statement::Invocation(x) = &mut q.statements[i] { x.branches[b].target = t; } });
                     }
+                    ctx.emit(p, || format!("statement {i}: branch {b} target := the next statement, explicitly"), |q: &mut Program| { if let Statement::Invocation(x) = &mut q.statements[i] { x.branches[b].target = BranchTarget::Statement(StatementIdx(i + 1)); } });
+                    if b > 0 { ctx.emit(p, || format!("statement {i}: branch {b} target := the target of branch {}", b - 1), |q: &mut Program| { if let Statement::Invocation(x) = &mut q.statements[i] { let t = match x.branches[b - 1].target { BranchTarget::Fallthrough => BranchTarget::Statement(StatementIdx(i + 1)), t => t }; x.branches[b].target = t; } }); }
                     ctx.emit(p, || format!("statement {i}: drop branch {b}"), |q: &mut Program| { if let Statement::Invocation(x) = &mut q.statements[i] { x.branches.remove(b); } });
                     for r in 0..inv.branches[b].results.len() {
                         ctx.emit(p, || format!("statement {i}: branch {b} drop result {r}"), |q: &mut Program| { if let Statement::Invocation(x) = &mut q.statements[i] { x.branches[b].results.remove(r); } });
